@@ -633,6 +633,11 @@ class Exec:
             if a == 0: return n
             if 'ctlz' in name: return n - a.bit_length()
             return (a & -a).bit_length() - 1
+        if name.startswith('llvm.load.relative'):
+            # relative lookup tables (switch lowered to a table of 32-bit offsets): result = ptr + sext(load i32 (ptr + offset))
+            base = s.concretize(av[0], 'address'); off = s.concretize(av[1], 'offset')
+            rel = s.concretize(s.load((base + sx(off, 64)) & M64, 4), 'relative entry')
+            return (base + sx(rel, 32)) & M64
         if name.startswith('llvm.trap'): raise Violation('ub', 'llvm.trap reached')
         if name.startswith(('llvm.stacksave',)): return 0
         if name.startswith(('llvm.stackrestore',)): return None
